@@ -20,6 +20,7 @@ def generate(path, mod):
     out = [HEADER % {"mod": mod}]
     lemmas = []
     emitted_tbl = False
+    pending_tbl = False
     skip = ("Step", "op_wdm")
     wdm_ops = [k for k, p in enumerate(M.procs) if p == "op_wdm"]
 
@@ -38,9 +39,12 @@ def generate(path, mod):
             continue
         name = f["name"]
         if "tbl_proc" in cpusafe.idents(f["body"]) and not emitted_tbl:
-            out.append(TBL % {"wdm": WDM_OPCODE})
-            lemmas.append("quiet_tbl_proc")
+            pending_tbl = True
             emitted_tbl = True
+        if pending_tbl:
+            out.append(tbl_lemma(M))
+            lemmas.append("quiet_tbl_proc")
+            pending_tbl = False
         if name in skip:
             continue
         ps = " ".join(n for n, _ in f["params"])
@@ -48,8 +52,6 @@ def generate(path, mod):
         out.append("Lemma quiet_%s : forall %s s0 s, fext Wcb s0 s -> pres (fun _ s' => fext Wcb s0 s') (%s).\n"
                    "Proof. intros %s s0 s Hq; cbv beta delta [%s]; cb_run ltac:(%s). Qed.\n"
                    % (name, ps, callstr, ps, name, call(f)))
-        if name in M.procs:
-            out.append("#[local] Hint Resolve quiet_%s : cbprocs.\n" % name)
         lemmas.append("quiet_" + name)
     rd = [c for c in ("nRead",) if c in M.byname]
     unf = set(rd)
@@ -62,8 +64,31 @@ def generate(path, mod):
     out.append(EXACT % {"unf": " ".join(sorted(unf)), "mod": mod, "wdm": WDM_OPCODE})
     lemmas += ["ex_nRead", "ex_cmdRead_imm", "ex_op_wdm", "step_cb_" + mod, "C12_callbacks_" + mod, "C12_callbacks_run_" + mod]
     files = {"C12_cbq_%s" % mod: "\n".join(out),
-             "C12_cb_%s" % mod: STEP_HEADER % {"mod": mod} + STEP % {"mod": mod, "call": step_call, "wdm": WDM_OPCODE}}
+             "C12_cbs_%s" % mod: STEP_HEADER % {"mod": mod} + STEP % {"mod": mod, "call": step_call, "wdm": WDM_OPCODE},
+             "C12_cb_%s" % mod: THM_HEADER % {"mod": mod} + THEOREMS % {"mod": mod, "wdm": WDM_OPCODE}}
     return files, {"lemmas": lemmas, "wdm_opcodes": wdm_ops, "functions": len(M.funcs)}
+
+
+def tbl_lemma(M):
+    lines = ["(* the routine of every opcode other than $42 is quiet; $42 is the only opcode dispatched to op_wdm, the only routine",
+             "   that is not (there is no quiet_op_wdm: any other opcode dispatching to it fails here) *)",
+             "Lemma quiet_tbl_proc : forall op s0 s, op <> %d -> fext Wcb s0 s -> pres (fun _ s' => fext Wcb s0 s') (tbl_proc op s)." % WDM_OPCODE,
+             "Proof.",
+             "  intros op s0 s Hne Hq. destruct (Z_lt_le_dec op 256) as [Hl|Hl]; [destruct (Z_lt_le_dec op 0) as [Hn|Hn]|].",
+             "  - destruct op; try lia. exact I.",
+             "  - revert s Hq Hne. pattern op. apply all_bytes; [|unfold rng; change (2 ^ 8) with 256; lia].",
+             "    cbv [upto app Z.of_nat Pos.of_succ_nat Pos.succ]."]
+    for k, pname in enumerate(M.procs):
+        if pname == "op_wdm":
+            lines.append("    apply Forall_cons; [ intros s Hq Hne; exfalso; apply Hne; reflexivity | ].")
+        else:
+            lines.append("    apply Forall_cons; [ intros s Hq Hne; change (tbl_proc %d s) with (%s s); apply quiet_%s; exact Hq | ]." % (k, pname, pname))
+    lines += ["    apply Forall_nil.",
+              "  - destruct op as [|p|p]; try lia.",
+              "    do 8 (destruct p as [p|p|]; [ | | exfalso; lia ]).",
+              "    all: exact I.",
+              "Qed.\n"]
+    return "\n".join(lines)
 
 
 HEADER = """(* GENERATED per run by checks/cpucb.py: the callbacks clause of C12 over the regenerated model %(mod)s *)
@@ -76,8 +101,6 @@ Local Open Scope Z_scope.
 
 (* fields a quiet routine may assign: all but the record of where the current opcode was fetched from *)
 Definition Wcb (f : N) : bool := negb (N.eqb f f_PPC || N.eqb f f_PRK).
-
-Create HintDb cbprocs.
 """
 
 STEP_HEADER = """(* GENERATED per run by checks/cpucb.py: the callbacks clause of C12 over the regenerated model %(mod)s: Step *)
@@ -86,23 +109,21 @@ From Lib Require Import ZOps Machine.
 From Gen Require Import GenFields %(mod)s.
 From Props Require Import SafeLib CpuEqLib CbLib.
 From Run Require Import C12_cbq_%(mod)s.
-From Run Require C08_%(mod)s.
 Import ListNotations.
 Local Open Scope Z_scope.
 
 """
 
-TBL = """(* the routine of every opcode other than $42 is quiet; $42 is the only opcode dispatched to op_wdm, the only routine
-   that is not (op_wdm has no lemma in the hint database, so any other opcode dispatching to it fails here) *)
-Lemma quiet_tbl_proc : forall op s0 s, op <> %(wdm)d -> fext Wcb s0 s -> pres (fun _ s' => fext Wcb s0 s') (tbl_proc op s).
-Proof.
-  intros op s0 s Hne Hq. unfold tbl_proc.
-  destruct op as [|p|p]; [ | | exact I ];
-  repeat (match goal with
-          | |- pres _ (match ?q with _ => _ end _) => is_var q; destruct q as [q|q|]
-          end);
-  first [ exact I | solve [ eauto with cbprocs ] | exfalso; apply Hne; reflexivity ].
-Qed.
+THM_HEADER = """(* GENERATED per run by checks/cpucb.py: the callbacks clause of C12 over the regenerated model %(mod)s: theorems *)
+From Coq Require Import ZArith List Bool NArith Lia.
+From Lib Require Import ZOps Machine.
+From Gen Require Import GenFields %(mod)s.
+From Props Require Import SafeLib CpuEqLib CbLib.
+From Run Require Import C12_cbq_%(mod)s C12_cbs_%(mod)s.
+From Run Require C08_%(mod)s.
+Import ListNotations.
+Local Open Scope Z_scope.
+
 """
 
 EXACT = """(* ---- exact effects ---- *)
@@ -171,8 +192,8 @@ Ltac wdm_run :=
          | |- pres ?Q (if ?c then ?A else ?B) =>
              let c' := eval vm_compute in c in
              lazymatch c' with
-             | true => change (pres Q A)
-             | false => change (pres Q B)
+             | true => apply pres_if_true; [ vm_compute; reflexivity | ]
+             | false => apply pres_if_false; [ vm_compute; reflexivity | ]
              | _ => case c
              end
          | |- pres _ (bind _ _) => fail
@@ -238,7 +259,9 @@ Lemma step_cb_%(mod)s : forall s, pres (fun _ s' => step_cb f_PPC f_PRK f_WDM s 
 Proof. intro s; pose proof (fext_refl Wcb s) as Hq; cbv beta delta [Step]; cb_run ltac:(step_call). Qed.
 
 Ltac cb_hook ::= fail.
+"""
 
+THEOREMS = """
 (* C12, callbacks clause, one Step from ANY state with fields in their Go types (pending interrupts included).
    callbacks_clause (Props/CbLib.v) unfolded:
      onpc s' = onpc s /\\ onwdm s' = onwdm s /\\
@@ -338,7 +361,6 @@ Example ex_step : exists pushes, ex_obs =
   /\\ cbs pushes = [] /\\ onpc ex_state 4660 = true /\\ onpc ex_state 32768 = false.
 Proof. eexists. split; [vm_compute; reflexivity|]. split; [reflexivity|]. split; reflexivity. Qed.
 
-Print Assumptions C12_callbacks_%(mod)s.
-Print Assumptions C12_callbacks_%(mod)s_explicit.
-Print Assumptions C12_callbacks_run_%(mod)s.
+Definition C12_callbacks_all_%(mod)s := (C12_callbacks_%(mod)s, C12_callbacks_%(mod)s_explicit, C12_callbacks_run_%(mod)s, ex_good, ex_step).
+Print Assumptions C12_callbacks_all_%(mod)s.
 """
